@@ -11,8 +11,9 @@ channels of the PIT network are exactly zero.  In particular the two networks' o
 
 Hypotheses: `supported` (no residual sum / depthwise conv / non-feature concat consumes a
 concat- or flatten-derived tensor — the complement is the pair of open known findings),
-`wellShaped`, `noExcluded` (exclusions are covered by correspondence and the end-to-end oracle,
-not by this theorem).  The carrier (what a convolution computes on a channel) is abstract.
+`wellShaped`.  Layers excluded from the search are part of the grammar (`fixed`, `fixedDw`): the
+theorem shows they receive their full input width.  The carrier (what a convolution computes on a
+channel) is abstract.
 -/
 namespace PlinioVerif.C01Net
 open PlinioVerif.PIT
@@ -22,14 +23,14 @@ variable {V : Type} [AddCommMonoid V]
 /-- **network-level export equivalence** -/
 theorem net_export_equiv (σ : Sem V) (inp : ℕ → List V) (p : Prog) (l : List ℕ) (α : ℕ → List Rat)
     (hl : computeLabels p = some l) (hws : wellShaped p = true) (hsup : supported p = true)
-    (hne : noExcluded p = true) (hsem : ∀ n (hn : n < p.length), SemOK σ inp (p[n], n)) :
+    (hsem : ∀ n (hn : n < p.length), SemOK σ inp (p[n], n)) :
     let ms := aliveMasks p l α
     let r := runBoth σ ms inp p.zipIdx
     ∀ n < p.length,
       gv r.2 n = compress (gm ms n) (gv r.1 n) ∧ DeadZero (gm ms n) (gv r.1 n) ∧
       (gm ms n).length = (gv r.1 n).length := by
   intro ms r n hn
-  have hco := coherent_of_bookkeeping σ inp p l α hl hws hsup hne hsem
+  have hco := coherent_of_bookkeeping σ inp p l α hl hws hsup hsem
   have hinv := run_inv σ ms inp p p.length (le_refl _) hco
   have htake : p.zipIdx.take p.length = p.zipIdx := by
     apply List.take_of_length_le; simp
@@ -42,12 +43,12 @@ theorem net_export_equiv (σ : Sem V) (inp : ℕ → List V) (p : Prog) (l : Lis
 the PIT node -/
 theorem net_export_eq_on_frozen (σ : Sem V) (inp : ℕ → List V) (p : Prog) (l : List ℕ)
     (α : ℕ → List Rat) (hl : computeLabels p = some l) (hws : wellShaped p = true)
-    (hsup : supported p = true) (hne : noExcluded p = true)
+    (hsup : supported p = true)
     (hsem : ∀ n (hn : n < p.length), SemOK σ inp (p[n], n)) (n : ℕ) (hn : n < p.length)
     (hall : allTrue (gm (aliveMasks p l α) n)) :
     gv (runBoth σ (aliveMasks p l α) inp p.zipIdx).2 n
       = gv (runBoth σ (aliveMasks p l α) inp p.zipIdx).1 n := by
-  obtain ⟨h1, -, h3⟩ := net_export_equiv σ inp p l α hl hws hsup hne hsem n hn
+  obtain ⟨h1, -, h3⟩ := net_export_equiv σ inp p l α hl hws hsup hsem n hn
   rw [h1]; exact allTrue_compress _ _ hall h3
 
 /-! ### non-vacuity: a residual network with a flatten and a linear head meets the hypotheses -/
@@ -56,7 +57,31 @@ def demo : Prog :=
   [.input 2, .conv 0 3 {}, .chan 1, .conv 2 3 {}, .chan 3, .add 2 4, .dw 5 {}, .flat 6 2,
    .lin 7 2 {}, .output 8]
 
-example : (computeLabels demo).isSome = true ∧ wellShaped demo = true ∧ supported demo = true ∧
-    noExcluded demo = true := by decide +kernel
+example : (computeLabels demo).isSome = true ∧ wellShaped demo = true ∧ supported demo = true := by
+  decide +kernel
+
+/-- … and so does a network with a layer excluded from the search and a concat reaching it -/
+def demoExcl : Prog :=
+  [.input 2, .conv 0 3 {}, .chan 1, .conv 0 2 {}, .cat [2, 3], .chan 4, .fixed 5 4 {} false,
+   .flat 6 2, .lin 7 2 {}, .output 8]
+
+example : (computeLabels demoExcl).isSome = true ∧ wellShaped demoExcl = true ∧
+    supported demoExcl = true := by decide +kernel
+
+/-- **the exported network returns what the PIT network returns**: the tensor a network returns
+reaches the output node unpruned, so no restriction is left at the output -/
+theorem net_export_output_eq (σ : Sem V) (inp : ℕ → List V) (p : Prog) (l : List ℕ) (α : ℕ → List Rat)
+    (hl : computeLabels p = some l) (hws : wellShaped p = true) (hsup : supported p = true)
+    (hsem : ∀ n (hn : n < p.length), SemOK σ inp (p[n], n)) (n s : ℕ) (hn : n < p.length)
+    (hop : p[n] = .output s) :
+    gv (runBoth σ (aliveMasks p l α) inp p.zipIdx).2 n
+      = gv (runBoth σ (aliveMasks p l α) inp p.zipIdx).1 n := by
+  have hok := labelsOK_of_compute p l hl
+  have hsb := srcsBefore_of_wellShaped p hws
+  refine net_export_eq_on_frozen σ inp p l α hl hws hsup hsem n hn ?_
+  unfold gm
+  rw [alive_eq p l α hsb n hn, hop]
+  simp only [maskStep]
+  exact fixed_input_allTrue p l α hok hws n s hn (by rw [hop]; simp [Op.inputs]) (Or.inr (by rw [hop]; rfl))
 
 end PlinioVerif.C01Net
